@@ -743,7 +743,6 @@ const dateLayout = "D:20060102150405Z0700"
 
 func genHIST(c *hc.Ctx, n int) {
 	loadHistFonts()
-	cffBytes, _ = os.ReadFile("/repo/resources/Dynalight-Regular.otf")
 	for it := 0; it < n; it++ {
 		oneHist(c)
 	}
@@ -757,8 +756,6 @@ func oneHist(c *hc.Ctx) {
 		c.Count("hist:retry-clock")
 	}
 }
-
-var cffBytes []byte
 
 func histGradients() ([]canvas.Gradient, []string) {
 	mk := func(radial bool, offs []float64) canvas.Gradient {
@@ -796,15 +793,6 @@ func histImages(c *hc.Ctx) []image.Image {
 }
 
 func histAttempt(c *hc.Ctx) bool {
-	// subsetting a CFF font mutates the shared *canvas.Font (later subsets fail and embed the whole font):
-	// use fresh CFF font objects per history so that documents stay small and independent of process history
-	for k := 2; k < 4; k++ {
-		ft, err := canvas.LoadFont(cffBytes, 0, canvas.FontRegular)
-		if err != nil {
-			panic(err)
-		}
-		histFonts[k] = ft
-	}
 	w := pdf.VerifNewWriter()
 	g := &valGen{c: c}
 	var ops []string
@@ -1369,6 +1357,8 @@ func corpusDocs(c *hc.Ctx) {
 }
 
 func genDOC(c *hc.Ctx, n int) {
+	// since 027bf2b the writers subset a private copy: one *canvas.Font per file is shared by all documents
+	DocShareFonts = true
 	corpusDocs(c)
 	for it := 0; it < n; it++ {
 		avoid := map[string]bool{}
